@@ -286,12 +286,23 @@ func runC01() {
 		n = 20000
 	}
 	n = scaled(n)
+	// the directed async-commit recovery family of c02async.go (profile full): a recovered transaction is all-or-nothing
+	asyncRecoveryFamily(rnd.Fork(), 2)
+	thin := 1 // the families borrowed from c06.go are thinned out in the thorough tier (wall clock)
+	if run.Thorough() {
+		thin = 7
+	}
 	for i := 0; i < n; i++ {
 		c01Scenario(rnd.Fork())
 		// locking reads across fair-locking retries whose earlier locks expired (family of c06.go; the locking-read
 		// oracle and `audit held` are C01's: a locking read returns the newest committed value and really holds the lock)
-		if i%12 == 5 {
+		if i%(12*thin) == 5 {
 			aggExpireScenario(rnd.Fork())
+		}
+		// re-lock calls over keys the transaction holds that fail and are retried (family of c06.go): the held locks stay
+		if i%(6*thin) == 2 {
+			relockScenario(rnd.Fork())
+			rec.Count("c01:family:relock")
 		}
 	}
 }
